@@ -34,13 +34,13 @@ prop("C01",
 prop("C02",
      ["C02_only_guard_ops_change_values", "C02_guard_op_is_local", "C02_new_guard_shows_stored_value", "C02_witness"],
      ["C02."],
-     [fam("nolimit","H",1500), fam("nolimit","L",1500), fam("dfs-lock2","L",4000), fam("evict","H",800,"monitor"), fam("stream","L",800,"monitor"), fam("mix","L",800,"monitor")],
-     [fam("nolimit","H",40000), fam("nolimit","L",40000), fam("dfs-lock2","L",200000), fam("dfs-lock3","H",200000), fam("evict","H",20000,"monitor"), fam("stream","L",20000,"monitor"), fam("mix","L",20000,"monitor")],
+     [fam("nolimit","H",1500), fam("nolimit","L",1500), fam("dfs-lock2","L",4000), fam("evict","H",800,"monitor"), fam("stream","L",800,"monitor"), fam("mix","L",800,"monitor"), fam("scale","L",2,"monitor")],
+     [fam("nolimit","H",40000), fam("nolimit","L",40000), fam("dfs-lock2","L",200000), fam("dfs-lock3","H",200000), fam("evict","H",20000,"monitor"), fam("stream","L",20000,"monitor"), fam("mix","L",20000,"monitor"), fam("scale","L",16,"monitor"), fam("scale","H",16,"monitor")],
      cosim_ignore="order,stamp")
 prop("C04",
      ["C04_keys_exact", "C04_quiescent", "C04_count_reports_keys", "C04_keys_reports_keys", "C04_witness"],
      ["C04."],
-     [fam("nolimit","H",1500), fam("nolimit","L",1500), fam("pool","P",1000), fam("dfs-cancel","H",4000), fam("mix","H",800,"monitor"), fam("evict","L",800,"monitor"), fam("stream","H",800,"monitor")],
+     [fam("nolimit","H",1500), fam("nolimit","L",1500), fam("pool","P",1000), fam("dfs-cancel","H",4000), fam("mix","H",800,"monitor"), fam("evict","L",800,"monitor"), fam("stream","H",800,"monitor"), fam("scale","L",2,"monitor")],
      [fam("nolimit","H",40000), fam("nolimit","L",40000), fam("pool","P",20000), fam("dfs-cancel","H",200000), fam("dfs-lock3","H",100000), fam("mix","H",20000,"monitor"), fam("evict","L",20000,"monitor"), fam("stream","H",20000,"monitor")],
      cosim_ignore="order,stamp,value")
 prop("C12",
@@ -58,20 +58,20 @@ prop("C13",
 
 
 prop("C03",
-     ["C03_only_key_waits_block", "C03_absent_key_no_wait", "C03_free_key_no_wait", "C03_free_mutex_has_no_waiters",
+     ["C03_only_key_waits_block", "C03_drop_always_completes", "C03_stream_drops_valueless_guard", "C03_absent_key_no_wait", "C03_free_key_no_wait", "C03_free_mutex_has_no_waiters",
       "C03_release_hands_over", "C03_handed_waiter_runs", "C03_waiter_never_detached", "C03_blocked_only_by_client_guards", "C03_witness"],
      ["C14.lost_wakeup", "C03.", "C13.hang"],
      [fam("evict","H",1500,"monitor"), fam("evict","L",1500,"monitor"), fam("mix","L",1000,"monitor"), fam("dfs-lock3","H",3000), fam("dfs-lock2","L",4000), fam("nolimit","H",1500), fam("nolimit","L",1500), fam("dfs-cancel","H",4000), fam("dfs-stream","L",3000), fam("stream","H",800)],
      [fam("evict","H",40000,"monitor"), fam("evict","L",40000,"monitor"), fam("mix","L",40000,"monitor"), fam("mix","H",40000,"monitor"), fam("dfs-lock3","H",200000), fam("dfs-lock3","L",200000), fam("dfs-lock2","L",200000), fam("nolimit","H",40000), fam("nolimit","L",40000), fam("dfs-cancel","H",200000), fam("dfs-stream","L",200000), fam("stream","H",20000), fam("stream","L",20000)],
      cosim_ignore="order,stamp,value")
 prop("C06",
-     ["C06_cancel_pending_lock", "C06_cancel_stream_entry", "C06_no_residue", "C06_witness"],
+     ["C06_cancel_pending_lock", "C06_cancel_stream_entry", "C06_cancel_restores_state", "C06_no_residue", "C06_witness"],
      ["C04.", "C12.", "C13.", "C06."],
      [fam("dfs-cancel","H",6000), fam("dfs-cancel","L",6000), fam("dfs-stream","L",4000), fam("dfs-stream","H",4000), fam("nolimit","H",1500), fam("stream","L",1500), fam("evict","L",800), fam("mix","L",800)],
      [fam("dfs-cancel","H",300000), fam("dfs-cancel","L",300000), fam("dfs-stream","L",300000), fam("dfs-stream","H",300000), fam("nolimit","H",40000), fam("nolimit","L",40000), fam("stream","L",40000), fam("stream","H",40000), fam("evict","L",20000), fam("mix","L",20000), fam("pool","P",20000)],
      cosim_ignore="order,stamp")
 prop("C07",
-     ["C07_offered", "C07_no_callback", "C07_no_limit_no_callback", "C07_bound", "C07_witness"],
+     ["C07_offered", "C07_no_callback", "C07_no_limit_no_callback", "C07_bound", "C07_cooperative_round", "C07_cooperative_loop_terminates", "C07_witness"],
      ["C07."],
      [fam("evict","H",2500), fam("evict","L",2500), fam("dfs-evict","L",4000), fam("dfs-evict","H",4000)],
      [fam("evict","H",60000), fam("evict","L",60000), fam("dfs-evict","L",300000), fam("dfs-evict","H",300000), fam("mix","H",20000,"monitor")])
@@ -81,7 +81,7 @@ prop("C08",
      [fam("evict","H",2500), fam("evict","L",2500), fam("dfs-evict","L",4000), fam("dfs-evict","H",4000)],
      [fam("evict","H",60000), fam("evict","L",60000), fam("dfs-evict","L",300000), fam("dfs-evict","H",300000)])
 prop("C09",
-     ["C09_offer_is_lru_prefix", "C09_lookup_promotes", "C09_only_the_subject_key_moves", "C09_witness"],
+     ["C09_offer_is_lru_prefix", "C09_lookup_promotes", "C09_only_the_subject_key_moves", "C09_interval_order", "C09_offer_respects_order", "C09_witness"],
      ["C09."],
      [fam("seq","L",4000), fam("evict","L",3000), fam("dfs-evict","L",5000), fam("mix","L",1000)],
      [fam("seq","L",150000), fam("evict","L",100000), fam("dfs-evict","L",300000), fam("mix","L",40000)])
@@ -91,7 +91,7 @@ prop("C10",
      [fam("expiry","L",3000), fam("dfs-expiry","L",5000)],
      [fam("expiry","L",100000), fam("dfs-expiry","L",300000), fam("mix","L",40000)])
 prop("C11",
-     ["C11_snapshot", "C11_stream_step", "C11_never_yields_valueless", "C11_end_iff_done", "C11_witness"],
+     ["C11_snapshot", "C11_stream_step", "C11_never_yields_valueless", "C11_end_iff_done", "C11_first_poll_enabled", "C11_handed_poll_enabled", "C11_valueless_guard_is_dropped", "C11_witness"],
      ["C11."],
      [fam("stream","H",2500), fam("stream","L",2500), fam("dfs-stream","L",4000), fam("dfs-stream","H",4000)],
      [fam("stream","H",60000), fam("stream","L",60000), fam("dfs-stream","L",300000), fam("dfs-stream","H",300000)])
@@ -109,9 +109,9 @@ prop("C15",
 
 
 prop("C05",
-     ["C05_guard_ops_refine_map", "C05_guard_ops_enabled", "C05_lock_free_key", "C05_variants_interchangeable", "C05_try_fails_when_locked", "C05_witness"],
+     ["C05_guard_ops_refine_map", "C05_guard_ops_enabled", "C05_lock_free_key", "C05_variants_interchangeable", "C05_try_fails_when_locked", "C05_drop_sole_guard", "C05_lock_drop_absent_restores", "C05_witness"],
      ["C02.", "C04.", "C12.", "C05."],
-     [fam("seq","H",3000), fam("seq","L",3000), fam("nocancel","H",1500), fam("nocancel","L",1500)],
+     [fam("seq","H",3000), fam("seq","L",3000), fam("nocancel","H",1500), fam("nocancel","L",1500), fam("scale","L",2,"monitor")],
      [fam("seq","H",100000), fam("seq","L",100000), fam("nocancel","H",40000), fam("nocancel","L",40000), fam("mix","H",20000)],
      cosim_obs_is_oracle=True)
 
@@ -127,9 +127,9 @@ TEXT = {
  "C03": "PARTIAL (protocol level). Theorems: every in-flight call that is not waiting for a per-key mutex is enabled in every reachable state; free/absent keys are acquired without waiting; a free mutex has no waiters; release hands the key to the oldest waiter; a handed waiter can run; waiters are never detached; if nobody can move, every waiter waits for a client-owned guard. Co-simulation compares the implementation's set of blocked agents with the model's after every segment (lost wake-ups show as a mismatch); watchdog/self-deadlock detection in the harness. Not shown: that the runtime delivers wake-ups in finite time.",
  "C05": "Theorems: every guard operation returns and stores what the plain map would and touches nothing else; a lock call of any shape run to completion on a free key returns a guard with the map's value and a state that does not depend on the shape (variants interchangeable); a try on a locked/reserved key returns None and changes nothing a map + locked set can see. Co-simulation on single-threaded histories (family seq: every call runs to completion, all eight variants incl. borrowed/owned chosen per call) compares every return value with the model; shadow-map monitor.",
  "C06": "Theorems: cancelling a pending async_lock (queued or handed) or dropping any pending per-entry future of a stream is always enabled, panics never, removes the call, reserves nothing, changes no value/guard and re-establishes the invariant; quiescent states contain exactly the valued keys. Co-simulation over exhaustive interleavings of cancel points x the other party's steps; monitors for leaked keys, panics and consume.",
- "C07": "Theorems: the callback is invoked only by a soft-limited call when len >= N, with a non-empty list of at most len-(N-1) distinct, previously unlocked, valued entries (exactly the first ones in iteration order), each now held by the offered guard and reported with its stored value; none without a limit or below it; when the call proceeds the container has at most max(N, non-evictable+1) entries. Co-simulation + callback-argument monitor. The multi-round termination with a cooperative callback is exercised, not proved.",
+ "C07": "Theorems: the callback is invoked only by a soft-limited call when len >= N, with a non-empty list of at most len-(N-1) distinct, previously unlocked, valued entries (exactly the first ones in iteration order), each now held by the offered guard and reported with its stored value; none without a limit or below it; when the call proceeds the container has at most max(N, non-evictable+1) entries. Co-simulation + callback-argument monitor. A round with a cooperative callback lowers the number of evictable entries and the loop runs at most that many rounds (theorems conditional on the round's label sequence being executed).",
  "C08": "PARTIAL (protocol level, like C03). Theorems: nothing evictable => proceeds without callback; the eviction step is always enabled; in the callback the call holds no handle and new (re-entrant) calls can start; a callback error ends the call with that error and leaves nothing. Harness: BeforeCallback hook asserts the global lock is not held; DFS over two soft-limited lockers.",
- "C09": "Theorems: what is offered is the prefix of the evictable entries in recency order; a lock call's look-up moves its key to the MRU end; no step moves, adds or removes any key other than its subject key (the key of the lock call / of the guard being unlocked). The derivation of the interval formulation of the property from these is an argument in DESIGN.md, not a Coq theorem. Co-simulation compares the exact LRU order after every segment and the order of offered guards.",
+ "C09": "Theorems: what is offered is the prefix of the evictable entries in recency order; a lock call's look-up moves its key to the MRU end; no step moves, adds or removes any key other than its subject key (the key of the lock call / of the guard being unlocked). The interval formulation of the property is the theorem C09_interval_order over a ghost-instrumented run. Co-simulation compares the exact LRU order after every segment and the order of offered guards.",
  "C10": "Theorems: the call is total over all durations; the scan returns exactly the unlocked valued entries with stamp <= cut-off, each once with its value, and leaves every other entry and the order untouched; the stamp is the clock at the start of the guard drop; ticks change nothing. Co-simulation with a mock clock; monitor recomputes the expected set from the harness' own record of drops.",
  "C11": "Theorems: the snapshot is exactly the keys present at the critical section; the pending set never grows; an item is for a pending key, has the stored value, a live guard, and leaves the pending set; valueless guards are never yielded; end is reported iff the pending set is empty. Co-simulation incl. the per-entry sub-steps; stream monitor.",
  "C14": "Instances of the C01/C02/C04 theorems for the hash-map configuration without limits, plus try-lock success/failure and emptiness when idle. The harness drives the real LockPool type.",
